@@ -541,6 +541,46 @@ def make_mp_charset(kind, framing, where):
     return checked(q)
 
 
+# RFC 5987 / 6266 extended parameters (filename*=charset'lang'pct-encoded), which some clients send next to the plain one
+EXT_CHARSETS = [b"UTF-8", b"utf-8", b"ISO-8859-1", b"windows-874", b"ISO-8859-8-I", b"windows-31j", b"iso-2022-cn", b"hex", b"rot13",
+                b"undefined", b"no-such-codec", b"", b"utf-16", b"x" * 40]
+EXT_VALUES = [b"%e2%82%ac.txt", b"%ff%fe", b"plain.txt", b"%", b"%zz", b"a%00b", b""]
+
+
+def make_mp_extparam(kind, framing, which):
+    """a part whose Content-Disposition carries an extended-notation parameter `which`*=<charset>'<lang>'<value>, charset and
+    value from EXT_CHARSETS x EXT_VALUES (solver indices), with or without the plain twin and a language tag (solver bool).  O1 as everywhere; the data of a delivered part is the data sent."""
+    tail = CRLF + b"--b--" + CRLF
+
+    def q(ci: int, vi: int, twin: bool):
+        assume(0 <= ci < len(EXT_CHARSETS) and 0 <= vi < len(EXT_VALUES))
+        h = b"z"
+        ext = which + b"*=" + EXT_CHARSETS[ci] + (b"'en'" if twin else b"''") + EXT_VALUES[vi]
+        opts = b'; name="f"'
+        if kind == "files" or which == b"filename":
+            opts += b'; filename="a"' if (twin or which != b"filename") else b""
+        if which == b"name" and not twin:
+            opts = opts.replace(b'; name="f"', b"")
+        head = b"--b\r\n" + CD + b": form-data" + opts + b"; " + ext + CRLF + CRLF
+        sent = Sent(head, h, tail)
+        stream, env = framed(sent.pieces(3, 3), sent, framing, MP_CTYPE % "b")
+        res = serve(kind, stream, 512, env)
+        fail, cls = judge_status(res)
+        if fail:
+            return fail, observed(res)
+        cover("status-%sxx" % cls)
+        if cls == "2":
+            if len(res.seen) != 1:
+                return "2xx but the handler did not finish: %r" % (res.seen,), observed(res)
+            for v in delivered_values(res.seen[0]):
+                data = v if isinstance(v, bytes) else v.encode("utf-8")
+                if data != h:
+                    return "part with %r and data %r delivered as %r" % (ext, h, v), observed(res)
+                cover("delivered")
+        return None, observed(res)
+    return checked(q)
+
+
 def make_mp_any(n, kind, framing):
     """every byte string up to n bytes as a multipart body"""
     def q(b: bytes):
@@ -1058,6 +1098,14 @@ def queries(tier):
             "symbolic data bytes; handler reads request.%s; %s framing" % (
                 "upload" if kind == "files" else "text", where, len(PART_CHARSETS), kind, framing),
             200 if not T else 600, ["status-2xx", "delivered"], "mp/charset", {"handler": kind, "framing": framing, "where": where})
+    for kind, framing, which in ([("files", "cl", b"filename")] if not T else
+                                 [("files", "cl", b"filename"), ("forms", "cl", b"name"), ("files", "chunked", b"name"), ("forms", "cl", b"filename")]):
+        add("mp/extparam/%s/%s/%s" % (kind, framing, which.decode()), make_mp_extparam(kind, framing, which),
+            "one part whose Content-Disposition carries the extended-notation parameter %s*=<charset>'<lang>'<value> (RFC 5987): "
+            "charset one of %d labels incl. registered ones python has no codec for, value one of %d (percent-escapes, broken "
+            "escapes, none), with / without the plain twin and the language tag (solver bool); "
+            "handler reads request.%s; %s framing" % (which.decode(), len(EXT_CHARSETS), len(EXT_VALUES), kind, framing),
+            200 if not T else 600, ["status-2xx"], "mp/extparam", {"handler": kind, "framing": framing, "which": which.decode()})
     for n, kind, framing in ([(1, "forms", "cl")] if not T else [(3, "forms", "cl"), (2, "files", "chunked")]):
         add("mp/any/%s/%s/len%d" % (kind, framing, n), make_mp_any(n, kind, framing),
             "every byte string of length <= %d as the body of a multipart request (boundary b), handler reads request.%s, "
